@@ -189,7 +189,7 @@ pub fn run(ctx: &Ctx) {
         ctx,
         Pt {
             name: "c10.template",
-            cases: ctx.scale(10_000, 400_000),
+            cases: ctx.scale(150_000, 800_000),
             max_len: 4000,
             decode: &decode,
             oracle: &oracle,
